@@ -167,12 +167,14 @@ namespace occa {
             continue;
           }
 
-          args.push_back(tokenContext.parseExpression(smntContext, parser));
-
+          exprNode *arg = tokenContext.parseExpression(smntContext, parser);
+          // A NULL expression means the argument could not be parsed (error already reported)
+          success &= !!arg;
           if (!success) {
             freeExprNodeVector(args);
             return;
           }
+          args.push_back(arg);
 
           tokenContext.popAndSkip();
         }
